@@ -1,2 +1,35 @@
-import Dbg.Model.Slice
-/-! # C14 — Growable DNA string is a faithful sequence container (theorems: see below) -/
+import Dbg.Lemmas.Block64
+import Dbg.Lemmas.KmerOrder
+/-! # C14 — Growable DNA string is a faithful sequence container
+
+Proved so far (block level): a storage block is a `Kmer32` word, `set_by_addr` changes exactly one base of
+it and `get_by_addr` reads it (so all of C10/C11 applies per block: in particular the per-block order
+embedding used by the derived `Ord`).  The history theorem over `push`/`extend`/… is modelled and compared
+with the crate (raw storage words) on every run; it is listed as partial. -/
+namespace DnaStr
+
+theorem C14_block_set (b : BitVec 64) (i v : Nat) (hi : i < 32) (hv : v < 4) :
+    Block64.blockSeq (blockSet b (2 * i) v) = (Block64.blockSeq b).set i v := Block64.dna_blockSet_spec b i v hi hv
+
+theorem C14_block_get (b : BitVec 64) (i : Nat) (hi : i < 32) :
+    (Block64.blockSeq b)[i]? = some (blockGet b (2 * i)) := Block64.dna_blockGet_spec b i hi
+
+/-- per-block order: integer order of two blocks = lexicographic order of their 32 bases -/
+theorem C14_block_order (a b : BitVec 64) : a.toNat < b.toNat ↔ Block64.blockSeq a < Block64.blockSeq b :=
+  Kmer.lt_iff_lex Block64.k32_wf a b (fun i hi => BitVec.getLsbD_of_ge _ _ (by simpa [Block64.k32] using hi))
+    (fun i hi => BitVec.getLsbD_of_ge _ _ (by simpa [Block64.k32] using hi))
+
+/-- `blank(n)` has ⌈n/32⌉ zero blocks -/
+theorem C14_blank (n : Nat) : (blank n).len = n ∧ (blank n).storage = List.replicate ((n + 31) / 32) 0#64 := by
+  unfold blank
+  refine ⟨rfl, ?_⟩
+  simp only [show Gen.dnaWidth = 2 from rfl]
+  congr 1
+  have h1 : (n * 2) >>> 6 = n * 2 / 64 := Nat.shiftRight_eq_div_pow _ 6
+  have h2 : (n * 2) &&& 0x3F = n * 2 % 64 := Nat.and_two_pow_sub_one_eq_mod _ 6
+  simp only [h1, h2]
+  by_cases h : n * 2 % 64 > 0
+  · simp only [h, if_true]; omega
+  · simp only [h, if_false]; omega
+
+end DnaStr
